@@ -204,6 +204,8 @@ type Q struct {
 	Auto func(e Edge, st int) (int, bool)
 	// KeepFailpoints keeps the production-infeasible failpoint edges.
 	KeepFailpoints bool
+	// LastBlocks: after a successful Reach, the sequence of blocks of the witness path.
+	LastBlocks []*ssa.BasicBlock
 }
 
 // Step is one element of a witness path.
@@ -407,6 +409,14 @@ func (q *Q) reach(b0 *ssa.BasicBlock, idx0 int, target func(ssa.Instruction) boo
 		for i := cur.idx; i < len(b.Instrs); i++ {
 			in := b.Instrs[i]
 			if target(in) {
+				var rev []*ssa.BasicBlock
+				for j := qi; j >= 0; j = queue[j].par {
+					rev = append(rev, queue[j].b)
+				}
+				for l, r := 0, len(rev)-1; l < r; l, r = l+1, r-1 {
+					rev[l], rev[r] = rev[r], rev[l]
+				}
+				q.LastBlocks = rev
 				return true, mk(qi), in
 			}
 			if (q.NoPass != nil && q.NoPass(in)) || IsNoReturn(in) {
@@ -878,4 +888,40 @@ func InstrIs(m func(*ssa.CallCommon) bool) func(ssa.Instruction) bool {
 		}
 		return false
 	}
+}
+
+// PhiAlong resolves value v along a block path (as returned in Q.LastBlocks): φ-nodes are
+// replaced by the incoming value of the edge the path took, repeatedly.
+func PhiAlong(v ssa.Value, path []*ssa.BasicBlock) ssa.Value {
+	for i := 0; i < 16; i++ {
+		phi, ok := v.(*ssa.Phi)
+		if !ok {
+			return v
+		}
+		// last occurrence of phi's block in the path with a predecessor
+		idx := -1
+		for k := len(path) - 1; k >= 1; k-- {
+			if path[k] == phi.Block() {
+				idx = k
+				break
+			}
+		}
+		if idx < 1 {
+			return v
+		}
+		pred := path[idx-1]
+		found := false
+		for pi, pb := range phi.Block().Preds {
+			if pb == pred {
+				v = phi.Edges[pi]
+				found = true
+				break
+			}
+		}
+		if !found {
+			return v
+		}
+		path = path[:idx]
+	}
+	return v
 }
